@@ -391,10 +391,8 @@ func (x *c17) probeMethods(b balancer.Balancer, gb *gcpBalancer, cc *fakeCC, cfg
 		if res.Done != nil {
 			res.Done(balancer.DoneInfo{})
 		}
-		gb.mu.RLock()
 		_, bound := gb.affinityMap[kr]
 		_, still := gb.affinityMap[kq]
-		gb.mu.RUnlock()
 		switch {
 		case !listed:
 			if routedByKey || bound || !still {
